@@ -21,9 +21,9 @@ def canonical_lines(fn: ast.FunctionDef) -> List[str]:
     names: Dict[str, str] = {}
 
     def canon(nm: str) -> str:
-        if nm not in names:
-            names[nm] = f"v{len(names)}"
-        return names[nm]
+        # every local collapses to one placeholder: a distance, not an equivalence - renaming or re-ordering statements must
+        # not make unrelated lines differ
+        return "_"
     local = set()
     a = fn.args
     for x in a.posonlyargs + a.args + a.kwonlyargs:
